@@ -89,10 +89,12 @@ func (r *TrafficRoutingReconciler) Reconcile(ctx context.Context, req ctrl.Reque
 	}
 	klog.Infof("Begin to reconcile TrafficRouting %v", util.DumpJSON(tr))
 
-	// handle finalizer
-	err = r.handleFinalizer(tr)
-	if err != nil {
-		return ctrl.Result{}, err
+	// register the finalizer; while deleting it is removed only after the cleanup below is done
+	if tr.DeletionTimestamp.IsZero() {
+		err = r.handleFinalizer(tr)
+		if err != nil {
+			return ctrl.Result{}, err
+		}
 	}
 	newStatus := tr.Status.DeepCopy()
 	if newStatus.Phase == "" {
